@@ -13,6 +13,8 @@ pub mod c10;
 pub mod c13;
 pub mod c14;
 pub mod c15;
+pub mod c16;
+pub mod c16_grammar;
 pub mod c17;
 pub mod c18;
 pub mod c20;
@@ -54,6 +56,7 @@ pub const REGISTRY: &[Entry] = &[
     Entry { id: "C13", level: "exploration", run: c13::run },
     Entry { id: "C14", level: "exploration", run: c14::run },
     Entry { id: "C15", level: "exploration", run: c15::run },
+    Entry { id: "C16", level: "exploration", run: c16::run },
     Entry { id: "C17", level: "fault_enumeration", run: c17::run },
     Entry { id: "C18", level: "exploration", run: c18::run },
     Entry { id: "C20", level: "exploration", run: c20::run },
@@ -79,6 +82,7 @@ pub fn worker_main(args: &[String]) -> i32 {
     match args.first().map(|s| s.as_str()) {
         Some("open-hold") => c10::worker(&args[1..]),
         Some("c25") => c25::worker_main(&args[1..]),
+        Some(kind) if kind.starts_with("c16") => c16::worker_main(kind, &args[1..]),
         _ => 2,
     }
 }
